@@ -129,6 +129,11 @@ def differential(job, wd, seed, count):
         while k < len(l2) and l2[k].startswith('in=['): k += 1
         if k < len(l1) and l1[k].startswith('in=['):
             viol.append(l1[k].split(' out=')[0] + ' out=[] CRASH-IN-REAL-BUILD ' + ' | '.join(l.strip() for l in l2[k:k + 4])[:300])
+        else:
+            # the twin died on the same case (same code, e.g. SIGFPE): the real build's signal handler printed the inputs itself
+            for l in l2[k:]:
+                mc = re.search(r'CRASH signal=(\d+) (in=\[[^\]]*\])', l)
+                if mc: viol.append(mc.group(2) + ' out=[] CRASH-IN-REAL-BUILD signal=' + mc.group(1)); break
         l2 = l2[:k]; l1 = l1[:k]
     res['real_violations'] = viol[:5]
     if crashed and not viol:
